@@ -249,6 +249,46 @@ def judge_terms_within(got, exc, ref, path, lexset):
     return out
 
 
+def overlap_case(r, w1, d1, w2, d2, path):
+    """terms_within twice on one reader with overlapping lifetimes."""
+    try:
+        imm1 = sorted(r.terms_within(FIELD, w1, d1))
+        imm2 = sorted(r.terms_within(FIELD, w2, d2))
+    except Exception:
+        return "trivial"       # the immediate call itself is judged elsewhere
+    if not imm1 or not imm2:
+        return "trivial"
+    try:
+        # both created first, then consumed one after the other
+        g1 = r.terms_within(FIELD, w1, d1)
+        g2 = r.terms_within(FIELD, w2, d2)
+        a1 = sorted(g1)
+        a2 = sorted(g2)
+        if (a1, a2) != (imm1, imm2):
+            return ("terms_within|%s|overlapping-iterators|created-then-consumed" % path,
+                    "terms_within(%r, %d) and terms_within(%r, %d) created together and then consumed give %r / %r; "
+                    "each consumed at once gives %r / %r" % (w1, d1, w2, d2, small(a1), small(a2), small(imm1), small(imm2)))
+        # consumed alternately
+        g1 = iter(r.terms_within(FIELD, w1, d1))
+        g2 = iter(r.terms_within(FIELD, w2, d2))
+        b1, b2 = [], []
+        live = [(g1, b1), (g2, b2)]
+        while live:
+            for item in list(live):
+                try:
+                    item[1].append(next(item[0]))
+                except StopIteration:
+                    live.remove(item)
+        if (sorted(b1), sorted(b2)) != (imm1, imm2):
+            return ("terms_within|%s|overlapping-iterators|alternating" % path,
+                    "terms_within(%r, %d) and terms_within(%r, %d) consumed alternately give %r / %r; "
+                    "each consumed at once gives %r / %r" % (w1, d1, w2, d2, small(sorted(b1)), small(sorted(b2)), small(imm1), small(imm2)))
+    except Exception as e:
+        return ("terms_within|%s|overlapping-iterators|exc:%s" % (path, type(e).__name__),
+                "two overlapping terms_within expansions raised %r" % (e,))
+    return None
+
+
 def obs_fuzzy(searcher, word, d, p):
     from whoosh import query as Q
     try:
@@ -502,6 +542,9 @@ def run_case(case):
             if api == "fuzzy":
                 got, exc = obs_fuzzy(s, word, d, p)
                 return judge_fuzzy(got, exc, ref, docs)
+            if api == "overlap":
+                f6 = overlap_case(r, word, d, case["word2"], case["d2"], path_of(r))
+                return [] if f6 in (None, "trivial") else [(f6[0], f6[1], [])]
             base, _ = obs_terms_within(r, word, d, p)
             if api == "suggest":
                 got, exc = obs_suggest(s, word, d, p, case["limit"])
@@ -705,6 +748,21 @@ def task(t):
                         if f5:
                             report(f5, {"api": "layouts", "alpha": alpha, "lexicon": lexicon, "seed": seed,
                                         "layouts": [c[0] for c in clean], "word": word, "d": d, "p": p})
+            # two expansions alive on the same reader at once: what each one
+            # yields must not depend on when it is consumed
+            w2 = words[(words.index(word) + 1) % len(words)]
+            for li, (lay, ix, s, r, path) in enumerate(opened):
+                for d1, d2 in ((1, 1), (2, 1)):
+                    f6 = overlap_case(r, word, d1, w2, d2, path)
+                    acc.count("evaluations")
+                    acc.count("overlapping_expansions")
+                    if f6 == "trivial":
+                        continue
+                    acc.count("overlapping_expansions_both_nonempty")
+                    if f6:
+                        sig, what = f6
+                        acc.violation(sig, {"api": "overlap", "alpha": alpha, "lexicon": lexicon, "seed": seed,
+                                            "layout": lay, "word": word, "d": d1, "word2": w2, "d2": d2, "p": 0}, what)
             if len(lexicon) in (3, 30, 120) and word in ("".join(alpha[:2]), alpha[0] * 3):
                 acc.sample({"family": family, "alphabet": alpha, "lexicon_size": len(lexicon),
                             "layouts": [l["segs"] for l in lays], "word": word, "d": "0..3", "p": "0..4"})
